@@ -41,6 +41,7 @@ class HFile:
         self.mod = None
         self.caps = dict(DEFAULT_CAPS)
         self.hashorder = False
+        self.vecmodel = False
         self.harnesses = []
         self.text = open(path).read()
 
@@ -99,6 +100,7 @@ def load_catalogue():
                         k, v = item.split(":")
                         hf.caps[k] = int(v)
                 hf.hashorder = kv.get("hashorder") == "sym"
+                hf.vecmodel = kv.get("vec") == "model"
             elif s.startswith("//@h"):
                 pending = (_parse_kv(s[len("//@h"):]), i)
             elif pending is not None:
@@ -169,7 +171,16 @@ def _copy_src(crate, dst):
     shutil.copytree(src, os.path.join(dst, "src"))
 
 
-def build_kani_ws(root, hfiles, caps, hashorder=False):
+VEC_FILES = {"graph": ["src/lib.rs"],
+             "pie": ["src/pie.rs", "src/context/bottom_up.rs", "src/tracker/event.rs", "src/store.rs"]}
+
+
+def _inject_after_header(text, line):
+    """Insert `line` before the first item of a (non-root) module file."""
+    return _inject_root_line(text, line)
+
+
+def build_kani_ws(root, hfiles, caps, hashorder=False, vecmodel=False):
     """Create the Kani scratch workspace under `root` for the given harness files. Returns dict of source hashes."""
     os.makedirs(root)
     hashes = {}
@@ -219,8 +230,24 @@ def build_kani_ws(root, hfiles, caps, hashorder=False):
         lib = os.path.join(root, crate, "src", "lib.rs")
         t = open(lib).read()
         t = _inject_root_line(t, "extern crate kstd as std;")
+        if vecmodel and "src/lib.rs" in VEC_FILES[crate]:
+            t = t.replace("extern crate kstd as std;", "extern crate kstd as std;\n#[allow(unused_imports)] use std::kvec::Vec;", 1)
         t += f'\n#[cfg(kani)]\n#[path = "{hdir}/vk.rs"]\npub(crate) mod verif_vk;\n'
         open(lib, "w").write(t)
+    if vecmodel:
+        for crate in ("graph", "pie"):
+            for rel in VEC_FILES[crate]:
+                if rel == "src/lib.rs":
+                    continue
+                fp = os.path.join(root, crate, rel)
+                if os.path.exists(fp) and re.search(r"\bVec\b", open(fp).read()):
+                    src = _inject_after_header(open(fp).read(), "#[allow(unused_imports)] use std::kvec::Vec;")
+                    open(fp, "w").write(src)
+    p = os.path.join(root, "models", "kstd", "src", "kvec.rs")
+    tt = open(p).read()
+    tt, n = re.subn(r"pub const VCAP: usize = \d+;", f"pub const VCAP: usize = {caps.get('vec', 6)};", tt)
+    assert n == 1
+    open(p, "w").write(tt)
     for hf in hfiles:
         crate_dir = "graph" if hf.crate == "graph" else "pie"
         exp = os.path.join(hdir, hf.name)
@@ -353,6 +380,7 @@ def judge(h, rc, out, timed_out):
     r["n_checks"] = len(r["checks"])
     r["n_covers"] = len(covers)
     r["covers_satisfied"] = len([c for c in covers if c["status"] == "SATISFIED"])
+    r["cover_status"] = [(c["desc"], c["status"]) for c in covers]
     r["failed"] = [{"desc": c["desc"], "loc": c["loc"], "id": c["id"]} for c in failed]
     if unwind_fail:
         return "inconclusive", dict(r, reason="unwinding assertion failed (bound too small): " + unwind_fail[0]["loc"])
